@@ -423,7 +423,7 @@ fn cmd_hist(prop: &str) -> i32 {
     match prop {
         "C03" => {
             let n = cases(800, 16_000);
-            run_sharded(&mut rec, 3, n, shards(), "hist", optv, Duration::from_secs(120), || hist::strategy_all(3, 4, true, false, 0.0, 0.3), hist_judge::judge_c03, |c| json!({"HistCase": c, "opts": "C03"}));
+            run_sharded(&mut rec, 3, n, shards(), "hist", optv, Duration::from_secs(120), || hist::strategy_all(3, 4, true, false, 0.08, 0.3), hist_judge::judge_c03, |c| json!({"HistCase": c, "opts": "C03"}));
         }
         "C12" => {
             let n = cases(1200, 12_000);
